@@ -146,6 +146,13 @@ def run(ctx: core.Ctx):
             else:
                 e = build_engine(fl, case["engine"])
             if shared is True:
+                # (this pass also writes the rules with tabs, line breaks and runs of blanks between their tokens: any whitespace separates tokens)
+                for b_ in e.rule_blocks:
+                    for j_, r_ in enumerate(list(b_.rules)):
+                        if r_.is_loaded():
+                            en_, w_ = r_.enabled, r_.weight
+                            b_.rules[j_] = fl.Rule.create(r_.text.replace(" and ", "\tand\n ").replace(" or ", "\n\tor  ").replace(" then ", "\tthen\t"), e)
+                            b_.rules[j_].enabled, b_.rules[j_].weight = en_, w_
                 # components configured the way Engine.configure does it: ONE operator / defuzzifier object serves every
                 # block / output that uses this class with these parameters
                 pool = {}
